@@ -42,6 +42,7 @@ M = {"version": 1, "setup_cmd": "python3 bin/vcheck.py --setup",
                "source_commits": hook_commits, "add_only": True},
      "engines": [
         {"name": "lbfuzz", "path": "checks/lbfuzz", "serves_properties": ["C01", "C02", "C03", "C16"], "kind_free_text": "in-package Go test binary: seeded program generator + reference model + instrumented buffer pool (shim/gopkg), driven by bin/eng_lbfuzz.py in child processes"},
+        {"name": "race", "path": "bin/eng_race.py", "serves_properties": ["C19"], "kind_free_text": "race-detector builds (-race) of the connmon and muxmon test binaries run over checks/connmon/vr_c19_test.go workloads; report parser and classifier in bin/eng_race.py"},
         {"name": "muxmon", "path": "checks/muxmon", "serves_properties": ["C17"], "kind_free_text": "package mux test binary: ShardQueue frame oracle with its own jitter/pause handler behind the mux verif hooks; driven by bin/eng_connmon.py"},
         {"name": "connmon", "path": "checks/connmon", "serves_properties": [p for p in ALL if CHECKS.get(p, {}).get("engine") == "connmon" and p != "C17"], "kind_free_text": "in-package Go test binary on real sockets/pollers: hook trace + perturbation engine (jitter, pause P until Q), per-connection callback histories, PRF stream oracles, ledgers; driven by bin/eng_connmon.py in child processes"},
      ],
